@@ -22,6 +22,16 @@ def run(chk):
             lines.append(f"(val {op[:2]}{i} {op} {a})")
         for k in (1, -1, 2, -3):
             lines.append(f"(val in{i}_{k} inc {a} {k})")
+    # the long tail: rarely met shapes against a fixed set of partners, both ways
+    for i, a in enumerate(values.LONGS):
+        for j, b in enumerate(values.PARTNERS + [a]):
+            for op in ops:
+                lines.append(f"(val L{op[0]}{op[1]}{i}_{j} {op} {a} {b})")
+                lines.append(f"(val R{op[0]}{op[1]}{i}_{j} {op} {b} {a})")
+        for op in ("negate", "truthy", "output", "display"):
+            lines.append(f"(val L{op[:2]}{i} {op} {a})")
+        for k in (1, -1, 1000000):
+            lines.append(f"(val Lin{i}_{k} inc {a} {k})")
     res, agreed = suite.compare(chk, lines, "val", suite_name="VAL")
     for l in lines:
         cid = C.case_id(l)
